@@ -66,6 +66,11 @@ BODY = [
     ("hardcoded-named-bool-not-bool", '<field name="b" type="bool">yes</field>'),
     ("dummy-not-numeric", '<dummy type="short">x</dummy>'),
     ("length-on-int", '<field name="a" type="char" length="2"/>'),
+    ("length-ref-on-int", '<length name="n" type="char"/><field name="a" type="short" length="n"/>'),
+    ("length-ref-on-struct", '<length name="n" type="char"/><field name="a" type="S" length="n"/>'),
+    ("length-ref-on-enum", '<length name="n" type="char"/><field name="a" type="E" length="n"/>'),
+    ("length-ref-on-blob", '<length name="n" type="char"/><field name="a" type="blob" length="n"/>'),
+    ("length-ref-on-bool", '<length name="n" type="char"/><field name="a" type="bool" length="n"/>'),
     ("length-on-struct", '<field name="a" type="S" length="2"/>'),
     ("length-on-enum", '<field name="a" type="E" length="1"/>'),
     ("length-on-blob", '<field name="a" type="blob" length="3"/>'),
